@@ -302,3 +302,54 @@ Proof.
   split; [exact Hb3|exact Hfi3].
 Qed.
 End GiveBack.
+
+(* ================================================================ remove of an EMPTY directory: the table side, in general
+   The entry resolves to a directory whose chain is [l] (distinct clusters - implied by well-formedness) and that is empty for
+   the code.  Then remove succeeds; every cluster of l was allocated and is FFree afterwards, every other FAT entry keeps its value,
+   count_free grows by exactly length l, the latch is map_free (+ length l) and consistent with the new table, and nothing changes
+   outside the FAT copies and the root region (the directory's own clusters keep their bytes). *)
+Section RemoveDir.
+Variable upper : N -> list N.
+Variable oem : N -> N.
+
+Theorem vol_remove_dir_empty_reclaims im fi name ev l :
+  let g := parse_geom im in
+  fixed_root_geom g -> FatProofs.bytes_ok im -> fi_inv fstore (val_ft (ft_of g)) (store_of g im) fi (g_clusters g) ->
+  root_lookup upper oem im name = Ok ev -> Lfn.ev_is_dir ev = true -> is_special ev = false ->
+  root_entry_cluster ev <> 0 -> chain_from g im (root_entry_cluster ev) (Abs.chain_fuel g) = Some l -> NoDup l ->
+  dir_is_empty oem g im l = Ok true ->
+  exists im',
+    vol_remove_dir_root upper oem im fi name = Some (Ok tt, im', map_free fi (fun n => n + N.of_nat (length l))) /\
+    (forall x, In x l -> 2 <= x < g_clusters g + 2 /\ fat_val g im x <> FFree /\ fat_val g im' x = FFree) /\
+    (forall x, 2 <= x < g_clusters g + 2 -> ~ In x l -> fat_val g im' x = fat_val g im x) /\
+    count_free g im' = count_free g im + N.of_nat (length l) /\
+    (forall o, ~ in_store_area g o -> (o < g_root_off g \/ g_root_off g + root_bytes g <= o) -> img_get im' o = img_get im o) /\
+    fi_inv fstore (val_ft (ft_of g)) (store_of g im') (map_free fi (fun n => n + N.of_nat (length l))) (g_clusters g).
+Proof.
+  intros g Hg Hb Hfi Hlk Hd Hsp Hc Hch Hnd Hem. pose proof (fixed_root_vgeom_ok g Hg) as Hok.
+  destruct (vol_free_chain_spec g Hok im fi (root_entry_cluster ev) l Hb Hfi Hc Hch Hnd)
+    as (im1 & Hfr & Hb1 & Hfi1 & Hout1 & Hall & Hoth & Hwas & Hcnt).
+  set (ss := root_region_slots g im).
+  assert (root_region_slots g im1 = ss) as Hrs1.
+  { unfold ss, root_region_slots. f_equal. apply VolFileProofs.img_read_ext. intros i Hi. apply Hout1.
+    apply (root_not_store g _ Hg). lia. }
+  destruct (find_entry_listed upper oem ss name None ev Hlk) as [HL _].
+  pose proof (proj1 (root_region_shape g im)) as Hs. fold ss in Hs.
+  pose proof (delete_entry_shape (root_slot_count g) oem ss ss ev Hs eq_refl (proj2 Hs) HL) as Hsh.
+  set (im' := put_root_slots g im1 (delete_entry ss ev)).
+  pose proof (put_same_outside g im1 (delete_entry ss ev) Hsh) as Hout12. fold im' in Hout12.
+  assert (forall x, 2 <= x < g_clusters g + 2 -> fat_val g im' x = fat_val g im1 x) as Hv.
+  { intros x R. apply (fat_val_same_store g Hg im1 im' x R). intros a Ha. apply Hout12. left. exact (proj2 (store_area_before_root g a Hg Ha)). }
+  assert (count_free g im' = count_free g im1) as Hc2 by exact (count_free_frame g im1 im' Hg Hout12).
+  exists im'. split.
+  { rewrite (vol_remove_dir_empty_unfold upper oem im fi name ev l im1 _ Hlk Hd Hsp Hc Hch Hem Hfr). fold g. rewrite Hrs1. reflexivity. }
+  split.
+  { intros x Hx. destruct (Hwas x Hx) as (R & NF). split; [exact R|]. split; [exact NF|]. rewrite (Hv x R). exact (Hall x Hx). }
+  split; [intros x R Hn; rewrite (Hv x R); exact (Hoth x R Hn)|].
+  split; [rewrite Hc2; exact Hcnt|]. split.
+  { intros o Hns Hnr. rewrite (Hout12 o Hnr). exact (Hout1 o Hns). }
+  destruct Hfi1 as [F1 F2]. split; [|exact F2].
+  destruct (fi_free (map_free fi (fun n => n + N.of_nat (length l)))) as [n|]; [|exact I]. rewrite F1.
+  rewrite <- !(VolRemoveProofs.count_free_store g Hok). symmetry. exact Hc2.
+Qed.
+End RemoveDir.
